@@ -36,6 +36,8 @@ pub fn run(ctx: &Ctx) -> i32 {
         }
     }
     if stats.failures.is_empty() {
+        // (the scheduler's observer is no longer wanted: single-threaded histories get the re-lock watchdog instead)
+        crate::relock::install();
         let (camp, quick, thorough, _) = tower::campaign("C11H").unwrap();
         let n = if ctx.thorough() { thorough } else { quick };
         let hs = runner::run_campaign(&camp, ctx, n);
@@ -47,7 +49,7 @@ pub fn run(ctx: &Ctx) -> i32 {
         "(a) {} scenarios of 2-3 concurrent operations (requests of every kind x block connect with a dispute / completing a tracker / purging the user / with a stale tracker / reorg), \
          all schedules with a bounded number of preemptions at lock-acquisition granularity ({schedules} schedules executed): verdict = no runnable thread left (circular wait), a panic in any thread, \
          or the tower not answering a registration and not processing a block afterwards; (b) lifecycle histories (resubmission of appointments in every lifecycle state, every node verdict, node ahead of the tower): \
-         verdict = panic hook fired in a handler or in block processing. Non-trivial = (a) a thread was switched out while holding a lock, (b) a resubmission / re-trigger / update happened.",
+         verdict = panic hook fired in a handler or in block processing (a thread asking for a lock it already holds is turned into a panic by an observer of the lock shim, so a self-deadlock does not hang the campaign). Non-trivial = (a) a thread was switched out while holding a lock, (b) a resubmission / re-trigger / update happened.",
         ex.scenarios
     );
     ev.extra.insert("schedules_executed".into(), json!(schedules));
